@@ -153,7 +153,7 @@ def build(repo=None):
     ccls = mod.cls("_JaxtypingConfig")
     own_state = sorted({b.name for b in ccls.body if isinstance(b, (ast.FunctionDef, ast.AsyncFunctionDef))})
     obligations.append({"clause": "init:the-switches-live-on-one-plain-process-wide-object(no-base-class/metaclass:-not-thread-local,-no-attribute-hooks)", "pc": [], "path": [],
-                        "goal": z3.BoolVal(not ccls.bases and not ccls.keywords and not ({"__getattr__", "__getattribute__", "__setattr__", "__get__", "__set__"} & set(own_state))),
+                        "goal": z3.BoolVal([ast.unparse(b) for b in ccls.bases] in ([], ["object"]) and not ccls.keywords and not ({"__getattr__", "__getattribute__", "__setattr__", "__get__", "__set__"} & set(own_state))),
                         "meta": {"bases": z3.StringVal(",".join(ast.unparse(b) for b in ccls.bases)), "methods": z3.StringVal(",".join(own_state))}})
     obligations.append({"clause": "init:module-level-config-singleton", "pc": [], "goal": z3.BoolVal(singleton), "path": [], "meta": {}})
     out = []
